@@ -59,6 +59,9 @@ def extract_model(m, inputs):
                     vals[name] = {"bytes": None, "raw": str(v)[:200]}
                 else:
                     vals[name] = {"bytes": bytes(x % 256 for x in lst).hex(), "raw_oob": [x for x in lst if not 0 <= x <= 255][:4]}
+            elif kind == "intlist":
+                v = m.eval(payload, model_completion=True)
+                vals[name] = {"intlist": _seq_to_list(v)}
             elif kind == "str":
                 v = m.eval(payload, model_completion=True)
                 lst = _seq_to_list(v)
